@@ -335,16 +335,16 @@ theorem prioLoop_wf : ∀ (os : List Outcome), (∀ o ∈ os, o.2.wf) → (prioL
   | (t, .single l) :: rest, h => by simp [prioLoop, Err.wf]
   | (t, .multi ls) :: rest, h => by simp only [prioLoop]; exact h (t, .multi ls) (by simp)
 
-theorem evalList_eq (v : Nat → Bool) : ∀ ms : List Mod, evalList v ms = ms.map (eval v)
+theorem evalList_eq (v : Cond → Bool) : ∀ ms : List Mod, evalList v ms = ms.map (eval v)
   | [] => by simp [evalList]
   | m :: ms => by simp [evalList, evalList_eq v ms]
 
-theorem evalPList_eq (v : Nat → Bool) : ∀ ms : List (Int × Mod), evalPList v ms = ms.map (fun pm => eval v pm.2)
+theorem evalPList_eq (v : Cond → Bool) : ∀ ms : List (Int × Mod), evalPList v ms = ms.map (fun pm => eval v pm.2)
   | [] => by simp [evalPList]
   | (p, m) :: ms => by simp [evalPList, evalPList_eq v ms]
 
 mutual
-theorem eval_wf (v : Nat → Bool) : ∀ m : Mod, (eval v m).2.wf
+theorem eval_wf (v : Cond → Bool) : ∀ m : Mod, (eval v m).2.wf
   | .probe l fail => by cases fail <;> simp [eval, Err.wf]
   | .noop => by simp [eval, Err.wf]
   | .fifo agg ms => by
@@ -358,7 +358,7 @@ theorem eval_wf (v : Nat → Bool) : ∀ m : Mod, (eval v m).2.wf
     split
     · exact eval_wf v t
     · exact eval_wf v f
-theorem evalList_wf (v : Nat → Bool) : ∀ ms : List Mod, ∀ o ∈ evalList v ms, o.2.wf
+theorem evalList_wf (v : Cond → Bool) : ∀ ms : List Mod, ∀ o ∈ evalList v ms, o.2.wf
   | [] => by simp [evalList]
   | m :: ms => by
     intro o ho
@@ -366,7 +366,7 @@ theorem evalList_wf (v : Nat → Bool) : ∀ ms : List Mod, ∀ o ∈ evalList v
     rcases ho with rfl | ho
     · exact eval_wf v m
     · exact evalList_wf v ms o ho
-theorem evalPList_wf (v : Nat → Bool) : ∀ ms : List (Int × Mod), ∀ o ∈ evalPList v ms, o.2.wf
+theorem evalPList_wf (v : Cond → Bool) : ∀ ms : List (Int × Mod), ∀ o ∈ evalPList v ms, o.2.wf
   | [] => by simp [evalPList]
   | (p, m) :: ms => by
     intro o ho
@@ -432,7 +432,7 @@ theorem prioLoop_eq : ∀ (os : List Outcome), (∀ o ∈ os, o.2.wf) → flatO 
     | cons a as => simp [prioLoop, flatO, Err.flat, firstError]
 
 /-- What a compiled result does to a message of kind `k` (nothing if that side is nil). -/
-def outcomeOf (v : Nat → Bool) (k : Kind) (r : Result) : SOutcome :=
+def outcomeOf (v : Cond → Bool) (k : Kind) (r : Result) : SOutcome :=
   match r.side k with
   | none => ([], [])
   | some m => flatO (eval v m)
@@ -444,7 +444,7 @@ theorem allErrors_nil_cons (rest : List SOutcome) : allErrors (([], []) :: rest)
   simp [allErrors]
 
 /-- Children that do not expose side `k` are not added to the group; the spec sees them as doing nothing. -/
-theorem firstError_skip (v : Nat → Bool) (k : Kind) : ∀ rs : List Result,
+theorem firstError_skip (v : Cond → Bool) (k : Kind) : ∀ rs : List Result,
     firstError (((rs.filterMap (·.side k)).map (eval v)).map flatO) = firstError (rs.map (outcomeOf v k))
   | [] => by simp
   | r :: rs => by
@@ -463,7 +463,7 @@ theorem firstError_skip (v : Nat → Bool) (k : Kind) : ∀ rs : List Result,
       | nil => simp only [firstError]; rw [ih]
       | cons e es => simp [firstError]
 
-theorem allErrors_skip (v : Nat → Bool) (k : Kind) : ∀ rs : List Result,
+theorem allErrors_skip (v : Cond → Bool) (k : Kind) : ∀ rs : List Result,
     allErrors (((rs.filterMap (·.side k)).map (eval v)).map flatO) = allErrors (rs.map (outcomeOf v k))
   | [] => by simp
   | r :: rs => by
@@ -478,7 +478,7 @@ theorem allErrors_skip (v : Nat → Bool) (k : Kind) : ∀ rs : List Result,
       simp only [List.map_cons, outcomeOf, h, allErrors]
       rw [ih]
 
-theorem firstError_skipP (v : Nat → Bool) (k : Kind) : ∀ rs : List (Int × Result),
+theorem firstError_skipP (v : Cond → Bool) (k : Kind) : ∀ rs : List (Int × Result),
     firstError (((rs.filterMap (sideP k)).map (fun pm => eval v pm.2)).map flatO)
       = firstError ((rs.map (fun pr => (pr.1, outcomeOf v k pr.2))).map (·.2))
   | [] => by simp
@@ -510,27 +510,27 @@ theorem sideP_fst (k : Kind) (a : Int × Result) (b : Int × Mod) (h : sideP k a
 
 /-! ### the compiled tree evaluates as the depth-first specification -/
 
-theorem outcomeOf_orNoop (v : Nat → Bool) (k : Kind) (r : Result) :
+theorem outcomeOf_orNoop (v : Cond → Bool) (k : Kind) (r : Result) :
     flatO (eval v (orNoop (r.side k))) = outcomeOf v k r := by
   unfold outcomeOf
   cases r.side k <;> simp [orNoop, eval, flatO, Err.flat]
 
-def outcomeOpt (v : Nat → Bool) (k : Kind) : Option Result → SOutcome
+def outcomeOpt (v : Cond → Bool) (k : Kind) : Option Result → SOutcome
   | none => ([], [])
   | some r => outcomeOf v k r
 
-theorem outcomeOpt_orNoop (v : Nat → Bool) (k : Kind) (er : Option Result) :
+theorem outcomeOpt_orNoop (v : Cond → Bool) (k : Kind) (er : Option Result) :
     flatO (eval v (orNoop (er.bind (·.side k)))) = outcomeOpt v k er := by
   cases er with
   | none => simp [orNoop, eval, flatO, Err.flat, outcomeOpt]
   | some r => simpa [outcomeOpt] using outcomeOf_orNoop v k r
 
-theorem map_eval_wf (v : Nat → Bool) (ms : List Mod) : ∀ o ∈ ms.map (eval v), o.2.wf := by
+theorem map_eval_wf (v : Cond → Bool) (ms : List Mod) : ∀ o ∈ ms.map (eval v), o.2.wf := by
   intro o ho
   obtain ⟨m, _, rfl⟩ := List.mem_map.mp ho
   exact eval_wf v m
 
-theorem map_evalP_wf (v : Nat → Bool) (ms : List (Int × Mod)) : ∀ o ∈ ms.map (fun pm => eval v pm.2), o.2.wf := by
+theorem map_evalP_wf (v : Cond → Bool) (ms : List (Int × Mod)) : ∀ o ∈ ms.map (fun pm => eval v pm.2), o.2.wf := by
   intro o ho
   obtain ⟨m, _, rfl⟩ := List.mem_map.mp ho
   exact eval_wf v m.2
@@ -539,7 +539,7 @@ theorem prioOrder_eq_insertAll {α : Type} (l : List (Int × α)) : prioOrder l 
   rw [prioOrder, insertAll_eq_stableSort]
 
 mutual
-theorem compile_spec (k : Kind) (v : Nat → Bool) : ∀ (n : Node) (r : Result),
+theorem compile_spec (k : Kind) (v : Cond → Bool) : ∀ (n : Node) (r : Result),
     compile n = .ok r → outcomeOf v k r = specEval k v n
   | .leaf l caps fq fs scope, r, h => by
     simp only [compile] at h
@@ -615,7 +615,7 @@ theorem compile_spec (k : Kind) (v : Nat → Bool) : ∀ (n : Node) (r : Result)
           · simp only [hv, if_true]; rw [outcomeOf_orNoop, iht]
           · simp only [hv, Bool.false_eq_true, if_false]; rw [outcomeOpt_orNoop, ihe]
         · simp [ha]
-theorem compileList_spec (k : Kind) (v : Nat → Bool) : ∀ (cs : List Node) (rs : List Result),
+theorem compileList_spec (k : Kind) (v : Cond → Bool) : ∀ (cs : List Node) (rs : List Result),
     compileList cs = .ok rs → rs.map (outcomeOf v k) = specList k v cs
   | [], rs, h => by simp [compileList] at h; subst h; simp [specList]
   | c :: cs, rs, h => by
@@ -631,7 +631,7 @@ theorem compileList_spec (k : Kind) (v : Nat → Bool) : ∀ (cs : List Node) (r
         subst h
         simp only [List.map_cons, specList]
         rw [compile_spec k v c r hc, compileList_spec k v cs rs' hl]
-theorem compilePList_spec (k : Kind) (v : Nat → Bool) : ∀ (cs : List (Int × Node)) (rs : List (Int × Result)),
+theorem compilePList_spec (k : Kind) (v : Cond → Bool) : ∀ (cs : List (Int × Node)) (rs : List (Int × Result)),
     compilePList cs = .ok rs → rs.map (fun pr => (pr.1, outcomeOf v k pr.2)) = specPList k v cs
   | [], rs, h => by simp [compilePList] at h; subst h; simp [specPList]
   | (p, c) :: cs, rs, h => by
@@ -647,7 +647,7 @@ theorem compilePList_spec (k : Kind) (v : Nat → Bool) : ∀ (cs : List (Int ×
         subst h
         simp only [List.map_cons, specPList]
         rw [compile_spec k v c r hc, compilePList_spec k v cs rs' hl]
-theorem compileOpt_spec (k : Kind) (v : Nat → Bool) : ∀ (e : Option Node) (er : Option Result),
+theorem compileOpt_spec (k : Kind) (v : Cond → Bool) : ∀ (e : Option Node) (er : Option Result),
     compileOpt e = .ok er → outcomeOpt v k er = specOpt k v e
   | none, er, h => by simp [compileOpt] at h; subst h; simp [outcomeOpt, specOpt]
   | some n, er, h => by
